@@ -228,18 +228,21 @@ class SweepMonitor:
         self.fwd = 0
         self.back = 0
         self.hist = []  # list of (v_in, i_in, v_out, i_out) for the last sweeps
+        self.by_phase = {}  # phase -> [sweeps, last (v_in, i_in, v_out, i_out)]
         self._cur = None
 
-    def on_fwd(self, v, i, out):
+    def on_fwd(self, v, i, out, phase=""):
         self.fwd += 1
         self._cur = [list(map(float, v)), list(map(float, i)), list(map(float, out[0])), None]
+        self.by_phase.setdefault(phase, [0, None])[0] += 1
 
-    def on_back(self, v, i, out):
+    def on_back(self, v, i, out, phase=""):
         self.back += 1
         if self._cur is not None:
             self._cur[3] = list(map(float, out))
             self.hist.append(tuple(self._cur))
             self.hist = self.hist[-3:]
+            self.by_phase.setdefault(phase, [0, None])[1] = self.hist[-1]
             self._cur = None
 
 
@@ -297,12 +300,12 @@ class World:
 
         def fwd(self_, v, i, phase="", state=[]):
             out = ofwd(self_, v, i, phase, state)
-            world.sweeps.on_fwd(v, i, out)
+            world.sweeps.on_fwd(v, i, out, phase)
             return out
 
         def back(self_, v, i, phase="", state=[]):
             out = oback(self_, v, i, phase, state)
-            world.sweeps.on_back(v, i, out)
+            world.sweeps.on_back(v, i, out, phase)
             return out
 
         self._set(S.System, "_fwd_prop", fwd)
